@@ -181,6 +181,14 @@ def main():
     ck.step_hygiene()
     res = ck.step_generate('Gen_C17', TARGETS)
     if res is not None:
+        from props import t_C17o
+        oko, info = t_C17o.setup_generate()
+        if not oko:
+            ck.broke('translator-refusal', 't_C17o:orthogonality-certificates', info.get('error'))
+            res = None
+        else:
+            ck.extra['orthogonality'] = {k: info[k] for k in ('pairs', 'phi_certs', 'theta_certs', 'non_orthogonal')}
+    if res is not None:
         ck.step_prove('P_C17')
     n = 240 if ck.thorough() else 45
     goals = run_cases(ck, res, n, 25 if ck.thorough() else 5)
@@ -191,7 +199,7 @@ def main():
         run_cases(ck, None, n * 4, 0)
     ck.finish(
         trusted_extra=['Interval (interval tactic)',
-                       'ORTHOGONALITY / normalisation of the harmonics is checked by exact quadrature on the implementation only (no Coq theorem yet)',
+                       'orthogonality/normalisation: antiderivative certificates come from sympy (untrusted) and are re-checked in the kernel (D G = integrand, fundamental theorem via Coquelicot); the split of each harmonic into constant x Theta x Phi is re-proved (field)',
                        'scipy.special.legendre modelled by exact rational coefficients (compared each run, 1e-9); np.sqrt / np.pi modelled exactly (sqrt, PI)',
                        'modelled not verified: IEEE rounding incl. the float32 coefficient tensors of the zonal/Fourier operators, torch.autograd (= D)'],
         assumptions=['coefficient functions R_k are function symbols of r with arbitrary jets', 'r <> 0, sin theta <> 0',
